@@ -5,6 +5,8 @@
    iroh-dns/src/pkarr.rs `SignedPacket::from_txt_strings`):
 
      New            EndpointData::new (dedup, order kept) + UserData::try_from (<= 245 bytes)
+                    + EndpointData::apply_filter (AddrFilter::{unfiltered, relay_only, ip_only};
+                    what address-lookup services do before they publish; user data is kept)
      PublishPacket  EndpointInfo::to_pkarr_signed_packet  = endpoint_info_to_attrs;
                     TxtAttrs::to_txt_strings (BTreeMap order relay < addr < user-data);
                     SignedPacket::from_txt_strings (one TXT record per string; each string
@@ -41,11 +43,12 @@ CONSTANTS Classes,      \* character classes other than "=" used in user data
           FewLists,     \* address lists combined with every user-data value
           Pool,         \* all addresses: [kind, tag, form]
           Foreign,      \* TXT string lists not produced by Format (ResolveForeign)
+          Filters,      \* address filters applied before publishing: subset of {"none", "relay_only", "ip_only"}
           MaxUserData, MaxTxt, MaxPacket, NameLen,
           SplitOnce
 
 VARIABLES pc,        \* "new" -> "start" -> "wire" -> "done"
-          input,     \* [addrs: Seq(Address), ud: [some, s]] as handed to the constructors
+          input,     \* [addrs: Seq(Address), ud: [some, s], filter] as handed to the constructors
           info,      \* the EndpointInfo built from it: [addrs, ud]
           via,       \* "none" | "packet" | "txt" | "foreign"
           txt,       \* the TXT strings on the wire
@@ -98,6 +101,11 @@ Dedup(seq, seen) == IF seq = <<>> THEN <<>>
                     ELSE <<Head(seq)>> \o Dedup(Tail(seq), seen \cup {Head(seq)})
 Range(f) == { f[i] : i \in DOMAIN f }
 
+\* AddrFilter::apply: relay_only keeps relay URLs; ip_only keeps everything that is no relay URL (IP *and* custom)
+ApplyFilter(f, addrs) == CASE f = "relay_only" -> SelectSeq(addrs, LAMBDA a : a.kind = "relay")
+                           [] f = "ip_only" -> SelectSeq(addrs, LAMBDA a : a.kind # "relay")
+                           [] OTHER -> addrs
+
 \* endpoint_info_to_attrs + BTreeMap<IrohAttr, Vec<String>> order + to_txt_strings
 IsRelay(a) == a.kind = "relay"
 NotRelay(a) == a.kind # "relay"
@@ -146,17 +154,20 @@ FromTxt(ts) ==
 Cases == (AddrLists \X ({NoUd} \cup { [some |-> TRUE, s |-> s] : s \in UdSample }))
          \cup (FewLists \X { [some |-> TRUE, s |-> s] : s \in UserDataStrings })
 
+\* a filter other than "none" is combined with every address list, but only with the sampled user data
+FilterCases == AddrLists \X ({NoUd} \cup { [some |-> TRUE, s |-> s] : s \in UdSample })
 Init == /\ pc = "new" /\ via = "none" /\ txt = <<>> /\ out = NoOut
         /\ info = [addrs |-> <<>>, ud |-> NoUd]
-        /\ \/ \E c \in Cases : input = [addrs |-> c[1], ud |-> c[2]]
-           \/ input = [addrs |-> <<>>, ud |-> NoUd]
+        /\ \/ \E c \in Cases : input = [addrs |-> c[1], ud |-> c[2], filter |-> "none"]
+           \/ \E c \in FilterCases : \E f \in Filters \ {"none"} : input = [addrs |-> c[1], ud |-> c[2], filter |-> f]
+           \/ input = [addrs |-> <<>>, ud |-> NoUd, filter |-> "none"]
 
 \* EndpointData::new(addrs).with_user_data(UserData::try_from(s)?)
 New == /\ pc = "new"
        /\ IF input.ud.some /\ Bytes(input.ud.s) > MaxUserData
             THEN /\ pc' = "done" /\ out' = [NoOut EXCEPT !.st = "invalid", !.why = "MaxLengthExceeded"]
                  /\ UNCHANGED info
-            ELSE /\ pc' = "start" /\ info' = [addrs |-> Dedup(input.addrs, {}), ud |-> input.ud]
+            ELSE /\ pc' = "start" /\ info' = [addrs |-> ApplyFilter(input.filter, Dedup(input.addrs, {})), ud |-> input.ud]
                  /\ UNCHANGED out
        /\ UNCHANGED <<input, via, txt>>
 
@@ -174,7 +185,7 @@ Resolve == /\ pc = "wire" /\ out' = FromTxt(txt) /\ pc' = "done"
            /\ UNCHANGED <<input, info, via, txt>>
 
 \* a resolver is handed TXT strings that no publisher of this code produced
-ResolveForeign == /\ pc = "new" /\ input.addrs = <<>> /\ ~input.ud.some
+ResolveForeign == /\ pc = "new" /\ input.addrs = <<>> /\ ~input.ud.some /\ input.filter = "none"
                   /\ \E f \in Foreign : txt' = f
                   /\ via' = "foreign" /\ pc' = "wire" /\ UNCHANGED <<input, info, out>>
 
@@ -193,7 +204,7 @@ OrderKept == Published /\ out.st = "ok" =>
                out.addrs = SelectSeq(info.addrs, IsRelay) \o SelectSeq(info.addrs, NotRelay)
 \* the algebraic core: Parse inverts Format for every key and every value (incl. values with "=")
 \* (a statement about constants: evaluated in the one state where nothing has happened yet)
-ParseInvertsFormat == (pc = "new" /\ input.addrs = <<>> /\ ~input.ud.some) =>
+ParseInvertsFormat == (pc = "new" /\ input.addrs = <<>> /\ ~input.ud.some /\ input.filter = "none") =>
                         \A k \in Keys : \A v \in UserDataStrings :
                            LET r == Parse(Format(k, v)) IN r.ok /\ KeyOf(r.key) = k /\ r.val = v
 \* every valid user data fits one TXT string; the publisher never emits an unparsable string
@@ -203,7 +214,15 @@ TxtLimit == pc = "wire" /\ via = "packet" => \A j \in 1..Len(txt) : Bytes(txt[j]
 Total == pc = "done" => out.st \in {"ok", "err", "unencodable", "invalid"}
 
 \* one REPLAY line per finished case with everything the harness must observe
+\* filtering: nothing the filter removes is ever published, and everything it keeps comes back
+FilterRespected == pc \in {"wire", "done"} /\ via \in {"packet", "txt"} =>
+                     /\ input.filter = "relay_only" => \A j \in 1..Len(txt) : txt[j][1].c # "addr"
+                     /\ input.filter = "ip_only" => \A j \in 1..Len(txt) : txt[j][1].c # "relay"
+                     /\ Range(info.addrs) = { a \in Range(input.addrs) : \/ input.filter = "none"
+                                                                        \/ (input.filter = "relay_only" /\ a.kind = "relay")
+                                                                        \/ (input.filter = "ip_only" /\ a.kind # "relay") }
+
 Emit == pc = "done" =>
-  PrintT(<<"REPLAY", ToJson([via |-> via, addrs |-> input.addrs, ud |-> input.ud, txt |-> txt,
+  PrintT(<<"REPLAY", ToJson([via |-> via, addrs |-> input.addrs, filter |-> input.filter, ud |-> input.ud, txt |-> txt,
                              pktlen |-> IF via = "packet" THEN PacketLen(txt) ELSE 0, out |-> out])>>)
 =============================================================================
